@@ -369,7 +369,55 @@ func ruleR06c(c *Check, rule string) {
 				}
 			}
 			if len(mk) == 0 {
-				c.Bad(rule, "clear-before-recreate/"+c.P.FuncName(fn), "the directory restore never (re)creates its destination directory", c.P.Pos(fn.Pos()))
+				// the clear-and-recreate step as a helper of its own: RemoveAll(p) succeeded before MkdirAll(p)
+				// inside it, and it hands the RemoveAll error on
+				var recreate ssa.CallInstruction
+				for _, hs := range engine.SitesIn(fn) {
+					call, isCall := hs.(*ssa.Call)
+					if !isCall || engine.ErrResultIndex(call.Call.Signature()) < 0 {
+						continue
+					}
+					h := call.Call.StaticCallee()
+					if h == nil || len(h.Blocks) == 0 || !engine.InPackage(h, "output/handlers") {
+						continue
+					}
+					rasH, mkH := callsNamed(h, "os.RemoveAll"), callsNamed(h, "os.MkdirAll")
+					if len(rasH) == 0 || len(mkH) == 0 {
+						continue
+					}
+					if !(sameVar(rasH[0].Common().Args[0], mkH[0].Common().Args[0]) || engine.ExprKey(rasH[0].Common().Args[0]) == engine.ExprKey(mkH[0].Common().Args[0])) {
+						continue
+					}
+					if onlyAfterSuccess(h, rasH[0], mkH[0]) == "" && forwardsError(h, rasH[0]) && forwardsError(h, mkH[0]) {
+						recreate = hs
+					}
+				}
+				if recreate == nil {
+					c.Bad(rule, "clear-before-recreate/"+c.P.FuncName(fn), "the directory restore never (re)creates its destination directory", c.P.Pos(fn.Pos()))
+					continue
+				}
+				fname := c.P.FuncName(fn)
+				bad := ""
+				for _, s := range engine.SitesIn(fn) {
+					if s == recreate {
+						continue
+					}
+					callees := c.G.Callees[s]
+					creates := false
+					if len(callees) > 0 {
+						for f := range c.G.ReachableFuncs(callees, nil) {
+							if len(callsNamed(f, "os.Create", "os.OpenFile", "os.Symlink", "os.MkdirAll", "os.Mkdir")) > 0 && engine.InPackage(f, "output/handlers") {
+								creates = true
+							}
+						}
+					}
+					if creates {
+						if w := onlyAfterSuccess(fn, recreate, s); w != "" {
+							bad = "a creation under the destination (" + c.P.InstrPos(s) + ") is " + w
+						}
+					}
+				}
+				c.Require(bad == "", rule, "clear-before-recreate/"+fname, "the clear-and-recreate helper (RemoveAll(dst) succeeded before MkdirAll(dst)) returned nil before any creation below dst", bad, c.P.InstrPos(recreate))
 				continue
 			}
 		}
